@@ -164,9 +164,10 @@ theorem okC_w (w : World) (s : Store.Store) (hc : w.cifs = [some s]) (hi : w.its
   rfl
 
 theorem okH_w (w : World) (s : Store.Store) (hc : w.cifs = [some s]) (hi : w.its = []) (h : Nat) (e : CHE)
-    (he : w.chs.getD h none = some e) (h0 : e.cif = 0) (hv : s.db.hasContainer e.h.id = true) : Store.okH w h = true := by
+    (he : w.chs.getD h none = some e) (h0 : e.cif = 0) (hv : s.db.hasContainer e.h.id = true ∧ s.db.inCif e.h.id = true) :
+    Store.okH w h = true := by
   unfold Store.okH
-  simp only [liveH_w w s hc h e he h0, busy_false w hi, Store.CH.validB, hv]
+  simp only [liveH_w w s hc h e he h0, busy_false w hi, Store.CH.okB, Store.CH.validB, hv.1, hv.2]
   rfl
 
 /-- the step of the store model from the step of the documented model -/
@@ -206,6 +207,100 @@ theorem hasContainer_node (s : Store.Store) (t : Nat) (hn : Node (absS s.db) t) 
   unfold Store.Db.hasContainer
   rw [List.any_eq_true]
   exact ⟨c, hc, by simp [e]⟩
+
+theorem upB_mono (d : Store.Db) : ∀ (fuel c : Nat), d.upB fuel c = true → d.upB (fuel + 1) c = true
+  | 0, _, h => by simp [Store.Db.upB] at h
+  | fuel + 1, c, h => by
+    rw [Store.Db.upB] at h ⊢
+    simp only [Bool.or_eq_true] at h ⊢
+    rcases h with h | h
+    · exact Or.inl h
+    · right
+      cases hf : d.frames.find? (fun f => f.cid == c) with
+      | none => rw [hf] at h; cases h
+      | some f =>
+        rw [hf] at h
+        simp only [Bool.and_eq_true] at h ⊢
+        exact ⟨h.1, upB_mono d fuel f.parent h.2⟩
+
+theorem upB_le (d : Store.Db) (c : Nat) : ∀ (k fuel : Nat), d.upB fuel c = true → d.upB (fuel + k) c = true
+  | 0, _, h => h
+  | k + 1, fuel, h => upB_mono d (fuel + k) c (upB_le d c k fuel h)
+
+theorem below_len {o : Opts} {A : AState} (hi : AInv o A) : ∀ (p : Path) (c t : Nat), Below A c p t → p.length ≤ younger A c
+  | [], _, _, _ => Nat.zero_le _
+  | _ :: p, c, t, ⟨f, hfm, hp, _, hb⟩ => by
+    have h1 := below_len hi p f.cid t hb
+    have h2 := younger_lt A c f hfm (by rw [← hp]; exact hi.frmPar f hfm)
+    simp only [List.length_cons]; omega
+
+/-- a container below a block climbs back to it -/
+theorem upB_below (o : Opts) (s : Store.Store) (hi : AInv o (absS s.db)) (b : BlockRow) (hb : b ∈ (absS s.db).blocks) :
+    ∀ (n : Nat) (p : Path) (t : Nat), p.length ≤ n → Below (absS s.db) b.cid p t → s.db.upB (p.length + 1) t = true := by
+  intro n
+  induction n with
+  | zero =>
+    intro p t hl hbel
+    have : p = [] := List.length_eq_zero_iff.mp (by omega)
+    subst this
+    cases hbel
+    show s.db.upB 1 b.cid = true
+    rw [Store.Db.upB]
+    have : s.db.blocks.any (fun x => x.cid == b.cid) = true := List.any_eq_true.mpr ⟨b, hb, by simp⟩
+    simp [this]
+  | succ n ih =>
+    intro p t hl hbel
+    rcases List.eq_nil_or_concat p with rfl | ⟨p', k, rfl⟩
+    · cases hbel
+      show s.db.upB 1 b.cid = true
+      rw [Store.Db.upB]
+      have : s.db.blocks.any (fun x => x.cid == b.cid) = true := List.any_eq_true.mpr ⟨b, hb, by simp⟩
+      simp [this]
+    · rw [List.concat_eq_append] at hbel hl ⊢
+      obtain ⟨pc, hb1, f, hf, hp, _, he⟩ := (below_snoc (absS s.db) k p' b.cid t).mp hbel
+      have ihp := ih p' pc (by simp at hl; omega) hb1
+      have hlen : (p' ++ [k]).length + 1 = (p'.length + 1) + 1 := by simp
+      rw [hlen, Store.Db.upB]
+      have hfind : s.db.frames.find? (fun x => x.cid == t) = some f := by
+        cases hq : s.db.frames.find? (fun x => x.cid == t) with
+        | none =>
+          have := List.find?_eq_none.mp hq f hf
+          simp [he] at this
+        | some f' =>
+          have hm := List.mem_of_find?_eq_some hq
+          have hk : f'.cid = t := by simpa using List.find?_some hq
+          rw [hi.frmUniq f' hm f hf (Or.inl (by rw [hk, he]))]
+      rw [hfind]
+      have hpc : s.db.hasContainer pc = true := by
+        have hnode : Node (absS s.db) pc := by
+          rcases List.eq_nil_or_concat p' with rfl | ⟨q, kk, rfl⟩
+          · cases hb1; exact ⟨hi.blkCont b hb, hi.ids b hb⟩
+          · rw [List.concat_eq_append] at hb1
+            obtain ⟨_, _, g, hg, _, _, hge⟩ := (below_snoc (absS s.db) kk q b.cid pc).mp hb1
+            rw [← hge]; exact ⟨hi.frmCont g hg, hi.frmIds g hg⟩
+        exact hasContainer_node s pc hnode
+      simp only [hp, hpc, ihp, Bool.and_self, Bool.or_true]
+
+/-- a container a path denotes is PART OF THE CIF (its row exists and it hangs, through save frames, under a data block) -/
+theorem inCif_cont (o : Opts) (s : Store.Store) (hi : AInv o (absS s.db)) (path : Path) (t : Nat) (h : ContAt (absS s.db) path t) :
+    s.db.hasContainer t = true ∧ s.db.inCif t = true := by
+  have hnode := node_of_cont hi path t h
+  have hc := hasContainer_node s t hnode
+  refine ⟨hc, ?_⟩
+  cases path with
+  | nil => cases h
+  | cons k p =>
+    obtain ⟨b, hb, _, hbel⟩ := h
+    have h1 := upB_below o s hi b hb p.length p t (Nat.le_refl _) hbel
+    have h2 := below_len hi p b.cid t hbel
+    have h3 := younger_le (absS s.db) b.cid
+    unfold Store.Db.inCif
+    rw [hc, Bool.true_and]
+    have hlen : s.db.frames.length + 1 = (p.length + 1) + (s.db.frames.length - p.length) := by
+      have : (absS s.db).frames.length = s.db.frames.length := rfl
+      omega
+    rw [hlen]
+    exact upB_le s.db t _ _ h1
 
 theorem specStep_mkFrame_aw (A A' : AState) (chs : List (Option CHE)) (lhs : List (Option LHE)) (h : Nat) (e : CHE)
     (n : Option Name) (len : Bool) (hnew : CH) (he : chs.getD h none = some e) (hc : e.cif = 0)
@@ -293,7 +388,7 @@ theorem rep_mkFrame (o : Opts) (m : HMap) (w : World) (s : Store.Store) (last : 
     simpa using hfresh
   obtain ⟨hspec, hinv'⟩ := sim_mkFrame o (absS s.db) hr.inv pid hnode e.h hid code len hl hdup
   have hin : Store.inContract w sop = true :=
-    okH_w w s hr.cifs hr.its h e he h0 (by rw [hid]; exact hasContainer_node s pid hnode)
+    okH_w w s hr.cifs hr.its h e he h0 (by rw [hid]; exact inCif_cont o s hr.inv parent pid hpath)
   have hst := specStep_mkFrame_aw (absS s.db) _ w.chs w.lhs h e (some (mkName o false code)) len _ he h0 hspec
   obtain ⟨hres, hwok', s', hc', hA, hchs', hlhs', hits'⟩ := transfer w s sop _ _ _ _ hr.cifs hr.its hr.wok hin hst
   refine ⟨hin, by rw [hres], s', ?_, by rw [hA, tree_addFrame o _ hr.inv parent pid hpath]; rfl⟩
@@ -338,7 +433,7 @@ theorem rep_prune (o : Opts) (m : HMap) (w : World) (s : Store.Store) (last : Op
   have hnode := node_of_cont hr.inv path t hpath
   obtain ⟨hspec, hinv', hupd⟩ := sim_prune o (absS s.db) hr.inv t e.h hid
   have hin : Store.inContract w sop = true :=
-    okH_w w s hr.cifs hr.its h e he h0 (by rw [hid]; exact hasContainer_node s t hnode)
+    okH_w w s hr.cifs hr.its h e he h0 (by rw [hid]; exact inCif_cont o s hr.inv path t hpath)
   have hst := specStep_prune_aw (absS s.db) _ w.chs w.lhs h e he h0 hspec
   obtain ⟨hres, hwok', s', hc', hA, hchs', hlhs', hits'⟩ := transfer w s sop _ _ _ _ hr.cifs hr.its hr.wok hin hst
   have htree := tree_of_upd o _ _ hr.inv path t hpath _ hupd
@@ -370,7 +465,7 @@ theorem rep_mkLoop (o : Opts) (m : HMap) (w : World) (s : Store.Store) (last : O
   have hcl' := hcl cc hg
   obtain ⟨c, hc, hcb, hspec, hinv', hupd, hopen'⟩ := sim_mkLoop o (absS s.db) hr.inv t hnode cc hccl e.h hid names hne hv hcl'
   have hin : Store.inContract w sop = true :=
-    okH_w w s hr.cifs hr.its h e he h0 (by rw [hid]; exact hasContainer_node s t hnode)
+    okH_w w s hr.cifs hr.its h e he h0 (by rw [hid]; exact inCif_cont o s hr.inv path t hpath)
   have hst := specStep_mkLoop_aw (absS s.db) _ w.chs w.lhs h e none _ _ he h0 hspec
   obtain ⟨hres, hwok', s', hc', hA, hchs', hlhs', hits'⟩ := transfer w s sop _ _ _ _ hr.cifs hr.its hr.wok hin hst
   have htree := tree_of_upd o _ _ hr.inv path t hpath _ hupd
@@ -457,8 +552,10 @@ theorem rep_addPkt (o : Opts) (m : HMap) (w : World) (s : Store.Store) (last : O
     show (Store.okL w l && Store.keysDistinct ((names.map o.norm).zip vals)) = true
     rw [keysDistinct_zip _ _ hnd, Bool.and_true]
     unfold Store.okL
-    simp only [liveL_w w s hr.cifs l e che he h0 hch hcc, busy_false w hr.its,
-      validB_of_open o s hr.inv t e.h.loopNum names hopen e.h hcid rfl hcat]
+    have hic := (inCif_cont o s hr.inv path t hpath).2
+    rw [← hcid] at hic
+    simp only [liveL_w w s hr.cifs l e che he h0 hch hcc, busy_false w hr.its, Store.LH.okB,
+      validB_of_open o s hr.inv t e.h.loopNum names hopen e.h hcid rfl hcat, hic]
     rfl
   have hst := specStep_addPkt_aw (absS s.db) _ w.chs w.lhs l e che _ he h0 hch hcc hspec
   obtain ⟨hres, hwok', s', hc', hA, hchs', hlhs', hits'⟩ := transfer w s sop _ _ _ _ hr.cifs hr.its hr.wok hin hst
@@ -491,7 +588,7 @@ theorem rep_setVal (o : Opts) (m : HMap) (w : World) (s : Store.Store) (last : O
   obtain ⟨hok, hrect⟩ := cont_facts o (absS s.db) hr.inv path t hpath hokr
   obtain ⟨A', hspec, hinv', hupd⟩ := sim_setVal o (absS s.db) hr.inv t hnode e.h hid n v hwf.1 hok hrect
   have hin : Store.inContract w sop = true :=
-    okH_w w s hr.cifs hr.its h e he h0 (by rw [hid]; exact hasContainer_node s t hnode)
+    okH_w w s hr.cifs hr.its h e he h0 (by rw [hid]; exact inCif_cont o s hr.inv path t hpath)
   have hst := specStep_setVal_aw (absS s.db) A' w.chs w.lhs h e _ _ he h0 hspec
   obtain ⟨hres, hwok', s', hc', hA, hchs', hlhs', hits'⟩ := transfer w s sop _ _ _ _ hr.cifs hr.its hr.wok hin hst
   have htree := tree_of_upd o _ _ hr.inv path t hpath _ hupd
@@ -833,7 +930,7 @@ theorem rep_setVal_reads (o : Opts) (m : HMap) (w : World) (s : Store.Store) (la
   obtain ⟨hok, hrect⟩ := cont_facts o (absS s.db) hr.inv path t hpath hokr
   obtain ⟨A', hspec, hinv', hupd⟩ := sim_setVal o (absS s.db) hr.inv t hnode e.h hid n v hwf.1 hok hrect
   have hin : Store.inContract w sop = true :=
-    okH_w w s hr.cifs hr.its h e he h0 (by rw [hid]; exact hasContainer_node s t hnode)
+    okH_w w s hr.cifs hr.its h e he h0 (by rw [hid]; exact inCif_cont o s hr.inv path t hpath)
   have hst := specStep_setVal_aw (absS s.db) A' w.chs w.lhs h e _ _ he h0 hspec
   obtain ⟨hres, hwok', s', hc', hA, hchs', hlhs', hits'⟩ := transfer w s sop _ _ _ _ hr.cifs hr.its hr.wok hin hst
   obtain ⟨cc, hg, hccl, _⟩ := getIn_cont o (absS s.db) hr.inv path t hpath
@@ -855,7 +952,7 @@ theorem rep_setVal_reads (o : Opts) (m : HMap) (w : World) (s : Store.Store) (la
     rw [hA]
     exact node_of_cont hinv' path t (contAt_congr hupd.1 hupd.2.1 path t hpath)
   have hin2 : Store.inContract (Store.step w sop).1 (.getVal h (some (mkName o true n))) = true :=
-    okH_w _ s' hc' hits' h e he' h0 (by rw [hid]; exact hasContainer_node s' t hnode')
+    okH_w _ s' hc' hits' h e he' h0 (by rw [hid]; exact inCif_cont o s' (by rw [hA]; exact hinv') path t (by rw [hA]; exact contAt_congr hupd.1 hupd.2.1 path t hpath))
   have hst2 := specStep_getVal_aw (absS s'.db) (Store.step w sop).1.chs (Store.step w sop).1.lhs h e _ v amb he' h0 (by rw [hA]; exact hamb)
   obtain ⟨hres2, _⟩ := transfer (Store.step w sop).1 s' _ _ _ _ _ hc' hits' hwok' hin2 hst2
   exact hres2
